@@ -63,7 +63,7 @@ PROPS = {
     },
     "C09": {
         "spec_ops": ["c upgrade", "c hb"],
-        "streams": [{"name": "sync", "quick": 160, "thorough": 3200}],
+        "streams": [{"name": "sync", "quick": 160, "thorough": 3200}, {"name": "ledger", "quick": 96, "thorough": 800}],
         "rule": SYNC_RULE + " Every upgrade line carries the labelled answers of all query endpoints (info, per pool address get_utxos and get_balance, headers, synced) before and after; the specification column says they are identical.",
         "explanation": "theorems: get_utxos / get_balance / get_block_headers / is_synced / main-chain height / guards / config are literally unchanged by upgrade; blockchain_info unchanged under DeltaOk (after the F7 fix the delta is recomputed); fee percentiles recomputed from the tx-out cache equal the insertion-time rates under Inv; with a config argument exactly the named fields change; simulation relation (equal up to fetch state and per-block metrics) preserved by push and ingestion and implying equal answers; the first request after an upgrade is an initial one.",
         "technique": "Lean 4 theorems (frame lemmas + simulation relation over the model's upgrade) + differential correspondence with real pre_upgrade/post_upgrade at random message boundaries",
@@ -114,7 +114,7 @@ PROPS = {
         "model_spec_ops": ["c hb", "c reply"],
         "spec_ops": [],
         "extra_props": ["BlockCodec"],
-        "streams": [{"name": "sync", "quick": 160, "thorough": 3200}],
+        "streams": [{"name": "sync", "quick": 256, "thorough": 3200}],
         "rule": SYNC_RULE,
         "explanation": "theorems: insert_block accepts iff parent in tree, not already a child of it, header valid (C11), body valid (C12) and push succeeds; rejected blocks return no state (atomic); in a response the first "
                        "undecodable/rejected block bumps exactly one counter and the rest is dropped (result independent of the rest); garbage blocks / headers never trap; a complete response is consumed exactly once.",
